@@ -260,6 +260,7 @@ impl Property for C07 {
             env: None,
             real: None,
             note: "c07".into(),
+            decoy_in_cwd: false,
         };
         let xobs = run_xargs(&xs, ctx);
         rep.executions += 1;
